@@ -1,10 +1,12 @@
 (* Single entry point of all executable models:
    run_model id params rows  — ids are the property numbers / sub-models. *)
 Require Import Verif.common.Prelude.
-Require Import Verif.model.Vec Verif.model.Arc Verif.model.IntResult Verif.model.CStr Verif.model.Callback Verif.model.Slice Verif.model.Waker Verif.model.CView.
+Require Import Verif.model.Vec Verif.model.Arc Verif.model.IntResult Verif.model.CStr Verif.model.Callback Verif.model.Slice Verif.model.Waker Verif.model.CView Verif.model.Glue Verif.model.Life Verif.model.Group.
 
 Definition run_model (m : Z) (params : list Z) (rows : list (list Z)) : list (list Z) :=
   match m with
+  | 1%Z => run_gen params rows
+  | 4%Z => run_group params rows
   | 10%Z => run_carc params rows
   | 11%Z => run_cvec params rows
   | 12%Z => run_slice params rows
@@ -13,5 +15,7 @@ Definition run_model (m : Z) (params : list Z) (rows : list (list Z)) : list (li
   | 15%Z => run_cb params rows
   | 16%Z => run_c16 params rows
   | 19%Z => run_waker params rows
+  | 106%Z => run_life params rows
+  | 108%Z => run_casts params rows
   | _ => [[-3]%Z]
   end.
